@@ -281,6 +281,15 @@ fn list_history(rng: &mut Rng, t: KT, nops: usize) -> Prog {
                     }
                 }
             }
+            11 if rng.chance(1, 3) => {
+                // `find` returns the FIRST element that satisfies a predicate several elements satisfy
+                let (f, found): (String, Option<&K>) = match t {
+                    KT::Int => ("pu x -> x > 2 end".into(), model.iter().find(|k| matches!(k, K::I(i) if *i > 2))),
+                    KT::Str => ("pu x -> x > \"s2\" end".into(), model.iter().find(|k| matches!(k, K::S(s) if s.as_str() > "s2"))),
+                    KT::Pair => ("pu x -> x[0] > 2 end".into(), model.iter().find(|k| matches!(k, K::P(i, _) if *i > 2))),
+                };
+                p.step("find-first-of-several", format!("print(list.find(l, {}))\nprint(list.find(l, {}) == {})", f, f, maybe_lit(found)), vec![maybe_show(found), "true".into()]);
+            }
             11 => {
                 let target = if !model.is_empty() && rng.chance(2, 3) { model[rng.below(model.len())].clone() } else { fresh(t, &mut counter) };
                 let found = model.iter().find(|k| **k == target);
